@@ -20,6 +20,7 @@ PostObs(r) == LET P == r.post  D == {P[j].id : j \in {jj \in 1..Len(P) : P[jj].k
     [i \in D |-> LET p == P[CHOOSE j \in 1..Len(P) : P[j].id = i] IN [h |-> p.h, s |-> p.s]]
 
 Fix(c) == IF c.op = "forget" THEN [c EXCEPT !.ids = {c.ids[j] : j \in 1..Len(c.ids)}] ELSE c
+Refused == {<<"guard", "refused_although_valid">>, <<"refuse", "refused_although_valid">>}
 Mk(class, name, holds) == IF holds THEN {} ELSE {<<class, name>>}
 
 \* reachable cells and content-canonical representative (for Cell.order results)
@@ -41,7 +42,7 @@ SnakeStoreOk(o, post, c) ==
                    s == B!SnakeOf(post, h)
                IN /\ k <= Len(data) /\ new.b = old.b \o BytesToBits(SubSeq(data, 1, k))
                   /\ h \notin DOMAIN o
-                  /\ s.ok /\ s.bytes = SubSeq(data, k + 1, Len(data))
+                  /\ s.ok = "yes" /\ s.bytes = SubSeq(data, k + 1, Len(data))
 
 FailedBag(o, ob, r) ==
     LET c     == Fix(r.call)
@@ -62,19 +63,20 @@ FailedBag(o, ob, r) ==
              fits == Len(c.bytes) <= (1023 - Len(old.b)) \div 8
          IN IF ~fits /\ Len(old.r) >= 4
             THEN Mk("guard", "accepted_although_overflow_refs", ~okobs) \cup Mk("frame", "frame_broken_on_error", keepf)
-            ELSE IF ~okobs THEN {<<"guard", "refused_although_valid">>}
+            ELSE IF ~okobs THEN Refused
             ELSE Mk("value", "snake_encoding_wrong", SnakeStoreOk(o, post, c)) \cup Mk("frame", "frame_broken", keepf)
     ELSE IF c.op = "order"
     THEN IF ~okobs THEN {<<"frame", "order_raised">>}
          ELSE Mk("frame", "result_depends_on_history",
-                 {Unf(o, r.out.res.ids[j]) : j \in 1..Len(r.out.res.ids)} = {Unf(o, i) : i \in Reach(o, c.obj)}
+                 /\ \A j \in 1..Len(r.out.res.ids) : r.out.res.ids[j] \in DOMAIN o
+                 /\ {Unf(o, r.out.res.ids[j]) : j \in 1..Len(r.out.res.ids)} = {Unf(o, i) : i \in Reach(o, c.obj)}
                  /\ Len(r.out.res.ids) = Cardinality({Unf(o, i) : i \in Reach(o, c.obj)}))
               \cup Mk("frame", "frame_broken", post = o)
     ELSE LET e == B!Do(o, c) IN
     IF e.ok = "any" THEN Mk("frame", "frame_broken", keepf)
-    ELSE IF e.ok = FALSE
+    ELSE IF e.ok = "no"
     THEN Mk("guard", "accepted_although_" \o e.why, ~okobs) \cup Mk("frame", "frame_broken_on_error", keepf)
-    ELSE IF ~okobs THEN {<<"guard", "refused_although_valid">>} \cup Mk("frame", "frame_broken_on_error", keepf)
+    ELSE IF ~okobs THEN Refused \cup Mk("frame", "frame_broken_on_error", keepf)
     ELSE Mk("value", "result_wrong", r.out.res = e.res)
          \cup Mk("value", "state_wrong", \A i \in tgt \cup (IF Has(c, "new") THEN {c.new} ELSE {}) :
                                               i \in DOMAIN post /\ post[i] = e.objs[i])
